@@ -192,3 +192,45 @@ PROPS["C06"] = {
             thorough={"cases": 10000, "size": 200, "shards": 16}),
     ],
 }
+
+PROPS["C04"] = {
+    "level": "exploration",
+    "technique": "property-based testing (rapidcheck): decoder output vs an independent reference parse (frame walker + three-valued payload validators)",
+    "rule": "cases = (optional prior frame history, CMP frame with 0..5 (thorough ..8) unsegmented messages of every payload kind in the "
+            "classes well-formed / inner length beyond the payload / shorter than its header / bus-error flag / slack, then truncated at "
+            "any offset or zero-padded 1..64 bytes); non-trivial when at least one packet is returned and the frame holds >=2 payload "
+            "kinds, or truncation removes messages, or a prior history exists, or a must-be-invalid payload is present; distinct = "
+            "distinct serialized cases",
+    "assumptions": COMMON_ASSUMPTIONS + ["three-valued validators: outcomes the statement does not pin (analog sample type 2/3, interface status "
+                                         "byte > 2, CAN error position without flags, Ethernet txPortDown / shorter-than-64 / truncated flags, "
+                                         "LIN error flags, slack after the data, message type 0) are don't-care; if such a packet is returned "
+                                         "valid its type and bytes must still equal the wire"],
+    "level_text": "Generated-input search where expected values come from an independent big-endian parse of the same bytes, so symmetric "
+                  "endianness / offset errors in the library's accessors are visible; count and order of packets, every header field, "
+                  "validity and bytes are compared.",
+    "level_note": "Trusted: harness/oracle/wire.h layouts, model.h walkFrame and judgePayload.",
+    "stages": [
+        pbt("reference_parse", "pbt_C04", quick={"cases": 2000, "size": 100, "shards": 4},
+            thorough={"cases": 30000, "size": 200, "shards": 16}),
+    ],
+}
+
+PROPS["C03"] = {
+    "level": "exploration",
+    "technique": "bounded exhaustive enumeration + property-based testing (rapidcheck) + coverage-guided fuzzing (libFuzzer) of validators and accessors under ASan with an in-bounds view predicate",
+    "rule": "cases = (typed payload class, buffer size, background, inner length field values, path: class validator+constructor / "
+            "message buffer -> Packet constructor / frame -> Decoder); exhaustive over every size 0..header+8 and every inner length "
+            "value 0..rest+2 plus boundary values, random beyond; non-trivial when the buffer is accepted by validation AND has an inner "
+            "length > 0 or a size within 8 bytes of the header size; distinct = distinct serialized cases",
+    "assumptions": COMMON_ASSUMPTIONS + ["one-directional on purpose: rejection by a validator is always acceptable here (C04/C13 cover what must be accepted)",
+                                         "buffers are exactly-sized heap blocks, freed before the accessors run, so ASan sees any read outside them"],
+    "level_text": "Exhaustive enumeration of the neighbourhood of every header size and every inner length value, plus generated and "
+                  "coverage-guided inputs: every const accessor is called under ASan and every pointer/length view must lie inside the "
+                  "payload's own bytes; the same through Packet construction from accepted message buffers and through Decoder::decode.",
+    "level_note": "Trusted: ASan/UBSan, the view predicate in harness/common/views.h.",
+    "stages": [
+        pbt("bounded_exhaustive", "pbt_C03", mode="enum", quick={}, thorough={"timeout": 7200}),
+        pbt("random_buffers", "pbt_C03", quick={"cases": 5000, "size": 100, "shards": 4},
+            thorough={"cases": 100000, "size": 200, "shards": 16}),
+    ],
+}
